@@ -114,6 +114,7 @@ type UpReq struct {
 	Sends     []time.Duration
 	Answered  bool // a matching response has been delivered to the UPF
 	AnsTried  bool
+	MidAns    bool // an answer was injected mid-turn; processed by the end of this step
 	abCounted bool
 	SMF       int
 	Msg       *PMsg
@@ -530,6 +531,7 @@ func (s *Sim) injectAnswerMidTurn(a *Action) {
 	}
 	u := open[idx%len(open)]
 	u.AnsTried = true
+	u.MidAns = true
 	pm := &PMsg{Type: mtSessReportRsp, HasSEID: true, Seq: u.Seq, IEs: []TLV{tlv(ieCause, causeAccepted)}}
 	pm.SEID = s.model.upSEIDFor(u.CPSEID, u.Dst)
 	if pm.SEID == 0 {
